@@ -36,3 +36,11 @@ pub fn write_fasta(path: &str, recs: &[Vec<u8>]) {
     }
     std::fs::write(path, s).unwrap();
 }
+
+/// When VERIF_STALE_OUTPUT is set, leave a longer result of an "earlier run" at the output path before the call
+pub fn maybe_stale(out: &str) {
+    if std::env::var("VERIF_STALE_OUTPUT").is_ok() {
+        let junk: String = (0..400).map(|_| "(0.5,0.5,7) (0.25,0.75,1) (0.5,0.5) 0.123456 0.123456 0.123456 0.123456 0.123456 0.123456 0.5\n").collect();
+        std::fs::write(out, junk).unwrap();
+    }
+}
